@@ -22,6 +22,10 @@ CLAIMED = {
          "Lean 4 theorems for every data width k >= 1 and every data word: code geometry (least m, check positions = powers of two, cover sets = bit-b positions, k data positions), encoder (syndrome 0, even parity), decoder corrects any single flipped bit including the parity bit with sec iff a data/check bit, flags any two flipped bits with ded=1 and sec=0, and is a wire-through with enable=0. Tied to /repo on every run: geometry helpers for all k in 1..512, netlists exhaustively over all inputs for k <= 6 (quick) / 8 (thorough), all single and sampled/all pair flips on the standard widths up to 128; a break triggers a model-independent round-trip + matrix-Hamming oracle search on the real code.",
          "Trusted: Lean kernel + the three standard axioms; theorem statements; harness and driver (number<->bit-list conversion proved); Evaluator as netlist semantics. The model is hand-written; the decoder tie is complete only for k <= 8 and sampled words for larger k.",
          "Lean 4 structural proof (GF(2) linearity of XOR folds, loop/closed-form equalities) + checked model/implementation correspondence"),
+ "C02": ("DESIGN.md §7.C02",
+         "Lean 4 theorems over all base-name assignments and all request sequences (any order, with repeats): SignalNamespace.get_name (as repaired by the fix: commit) never gives two different signals one identifier (full injectivity, no hypothesis), a named signal keeps its identifier, issued names are never reserved words (kernel decide over the keyword table regenerated from /repo on every run, which must contain the IEEE 1364-2005 list) and stay legal identifiers; the hierarchical name dictionary is order-independent and legal. Tied to /repo by an operation-sequence differential (exhaustive small domains, random, real Migen hierarchies, end-to-end convert()) with model-independent uniqueness/legality/stability oracles; cross-process reproducibility is validated by re-running convert() under different hash seeds.",
+         "Trusted: Lean kernel + the three standard axioms; theorem statements; harness + driver; Python set/dict iteration order replaced by the order-independence theorem plus the re-run check; ClockSignal resolution, IO override step and sorted emission are harness monitors, not modelled. The former collision (x, x, x_1) is kept as a negative witness of the pre-fix method together with a conservativity theorem (fixed = old outside the collision region).",
+         "Lean 4 proof (inductive invariants over request lists, kernel decide over regenerated table) + operation-sequence differential correspondence"),
 }
 
 REASON_PENDING = "check not built yet in this round (model/theorems in progress); no claim is made"
